@@ -368,6 +368,19 @@ def run(ctx):
                 viol.setdefault('%s before %s decided' % (outcome, nm),
                                 (n, s, 'outcome "%s" is reached on a path where the guard "%s" is %s (documented order requires %s): '
                                        'a %s would be answered by the wrong rule' % (outcome, nm, g, w, nm)))
+    # the alternatives of a list filter are all of its elements: `any(match(v, recorded) for v in <the list>)` with no selection in between
+    from ..loader import expand_locals as _xla
+    for c_ in [x for x in ast.walk(vm.node) if isinstance(x, ast.Call) and isinstance(x.func, ast.Name) and x.func.id == 'any' and x.args and
+               isinstance(x.args[0], (ast.GeneratorExp, ast.ListComp))]:
+        g_ = c_.args[0]
+        src_ = _xla(vm.node, g_.generators[0].iter)
+        whole = len(g_.generators) == 1 and not g_.generators[0].ifs and isinstance(src_, ast.Name) and src_.id == p_match
+        cb.instance('list filter: every element of the list is an alternative', vm.qualname, whole, detail=norm(src_)[:80])
+        if not whole:
+            res.add(Finding('C14', 'C14.b', 'R-DECISION', vm.file, vm.qualname, c_.lineno, norm(c_)[:100],
+                            'the alternatives of a list filter are taken from `%s`%s, not from the whole list: an alternative that would match on its '
+                            'own (an int against an equal float, a pattern against a string) is dropped before it is tried' % (
+                                norm(src_)[:70], ' with a condition' if g_.generators[0].ifs else '')))
     present = {c[0] for c in cells}
     for oc in ('list-any', 'operator', 'none-false', 'pattern', 'equality'):
         bad = [k for k in viol if k.startswith(oc)]
@@ -588,12 +601,14 @@ def operator_table(repo, tc, opf):
     for f in cands:
         rec, flt = f.params[0], f.params[1]
         table = {}
+        from ..loader import expand_locals as _xlo
         for n in walk_own(f.node):
             if isinstance(n, ast.If) and isinstance(n.test, ast.Compare) and len(n.test.ops) == 1 and isinstance(n.test.ops[0], ast.Eq):
-                l, r = n.test.left, n.test.comparators[0]
+                l, r = _xlo(f.node, n.test.left), n.test.comparators[0]       # (through explaining variables)
                 if isinstance(r, ast.Constant) and isinstance(l, ast.Subscript) and isinstance(l.slice, ast.Constant) and l.slice.value == 'operator':
                     for b in n.body:
                         v = b.value if isinstance(b, (ast.Assign, ast.Return)) else None
+                        v = _xlo(f.node, v) if v is not None else None
                         if isinstance(v, ast.Compare) and len(v.ops) == 1:
                             left_ok = isinstance(v.left, ast.Name) and v.left.id == rec
                             rc = v.comparators[0]
@@ -604,7 +619,13 @@ def operator_table(repo, tc, opf):
             bad = [k for k in OPS if table.get(k) != (OPS[k], True)]
             extra = [k for k in table if k not in OPS]
             # default: result initialised False / final return False
-            dflt = any(isinstance(n, ast.Assign) and isinstance(n.value, ast.Constant) and n.value.value is False for n in walk_own(f.node))
+            returns_in_chain = any(isinstance(b, ast.Return) for n in walk_own(f.node) if isinstance(n, ast.If) for b in n.body)
+            last = f.node.body[-1] if f.node.body else None
+            if returns_in_chain:
+                # early-return form: what is left after the chain is the answer for every other operator
+                dflt = isinstance(last, ast.Return) and isinstance(last.value, ast.Constant) and last.value.value is False
+            else:
+                dflt = any(isinstance(n, ast.Assign) and isinstance(n.value, ast.Constant) and n.value.value is False for n in walk_own(f.node))
             if bad or extra or not dflt:
                 return False, 'operator table %s (wrong / missing: %s, unexpected: %s, default False: %s)' % (table, bad, extra, dflt), f
             return True, 'if-chain: %s, unknown operator keeps the False default' % {k: v[0] for k, v in table.items()}, f
